@@ -23,7 +23,7 @@ from ..cfg import ENTRY, EXIT, Assume, header_uses, stmt_defs
 from ..core import (AnalysisIncomplete, call_name, const_value, kwarg,
                     names_loaded, param_default, params, u, walk_expr,
                     walk_local)
-from ..match import canon, classify, match
+from ..match import C, canon, classify, match
 from ..patterns import (Cmp, assigns_to, calls_in, conjuncts, finfo,
                         returns_of, subscript_stores)
 from .cluster_common import KC, KM, HY, CU
@@ -835,6 +835,13 @@ def _array_freshness(v):
     return None
 
 
+def _copy_forms(name):
+    """Accepted spellings of "a fresh (shallow) copy of the list `name`"."""
+    return ['%s.copy()' % name, 'list(%s)' % name, 'copy.copy(%s)' % name, '%s[:]' % name, '[_C for _C in %s]' % name,
+            'copy.deepcopy(%s)' % name, '[*%s]' % name, '%s + []' % name, 'list(%s.copy())' % name, '%s[0:]' % name,
+            'list(%s[:])' % name]
+
+
 def _writes_in(fi, mod, loop, var):
     out = list(assigns_to(loop, var))
     for s in fi._mutated_in_place(var):
@@ -887,8 +894,33 @@ def d2_atomic(ck, R):
         return out
 
     cands = {}
+    P_inplace = None
     for var in (R.D, R.A, R.MC):
         cs = committed(var)
+        if var == R.MC:
+            # commit of the centre list IN PLACE: the accept region stores the proposed coordinate at the position
+            # of the centre being updated into the current list itself - either directly (the list is a local of
+            # this function, built from the indices) or after rebinding it to a fresh copy of itself.  There is no
+            # named candidate list then; the proposed coordinate is the value of that store.
+            selfcopy = (len(cs) == 1 and not isinstance(cs[0][1], ast.Name) and fi.def_value(cs[0][0], var) is not None and classify(
+                fi.expand(fi.def_value(cs[0][0], var), stop=(var,)), _copy_forms(var), scope={var})[0] == 'match')
+            if not cs or selfcopy:
+                inpl = [(m, t) for m, t in subscript_stores(loop, var) if fi.cfg.dominates(acc, m)]
+                other = [m for m in _writes_in(fi, mod, loop, var) if fi.cfg.dominates(acc, m)
+                         and not any(m is x for x, _ in inpl) and not (selfcopy and m is cs[0][0])]
+                if len(inpl) == 1 and not other and isinstance(inpl[0][0], ast.Assign) and len(inpl[0][0].targets) == 1 \
+                        and (not selfcopy or fi.cfg.dominates(cs[0][0], inpl[0][0])):
+                    m, t = inpl[0]
+                    v = classify(fi.expand(t.slice), [R.cid], scope={R.cid})
+                    ck.decide(v, rule + '.values', mod, m, PAM, u(m), 'the accept branch stores the proposed coordinate at the '
+                              'position of the centre being updated%s' % (' (into a fresh copy of the list)' if selfcopy else ''),
+                              'the proposed coordinate must be stored at position %s (the centre whose index is replaced)' % R.cid)
+                    pn = _orig_name(fi, m.value)
+                    if v[0] == 'match' and isinstance(pn, ast.Name):
+                        P_inplace = pn
+                    elif v[0] == 'match':
+                        ck.missing('C09.D3.frame', 'value stored into the centre list is not a named coordinate: %s' % u(m)[:100])
+                    continue
         if len(cs) != 1 or not isinstance(cs[0][1], ast.Name):
             if cs:
                 ck.missing(rule + '.values', 'value committed to `%s` is not a single named candidate: %s' % (var, '; '.join(u(s)[:60] for s, _ in cs)))
@@ -961,9 +993,7 @@ def d2_atomic(ck, R):
     if NM is not None:
         s = cands[R.MC][0]
         ds = fi.rd.defs_at(s, NM)
-        copies = ['%s.copy()' % R.MC, 'list(%s)' % R.MC, 'copy.copy(%s)' % R.MC, '%s[:]' % R.MC, '[_C for _C in %s]' % R.MC,
-                  'copy.deepcopy(%s)' % R.MC, '[*%s]' % R.MC, '%s + []' % R.MC, 'list(%s.copy())' % R.MC, '%s[0:]' % R.MC,
-                  'list(%s[:])' % R.MC]
+        copies = _copy_forms(R.MC)
         for d in ds:
             if d in ('PARAM', 'UNBOUND') or not _inside(mod, d, loop) or not isinstance(d, (ast.Assign, ast.AnnAssign)):
                 ck.missing(rule + '.fresh', 'definition of the candidate centre list `%s` inside the per-centre loop' % NM)
@@ -991,7 +1021,139 @@ def d2_atomic(ck, R):
                 P = None
         else:
             ck.missing(rule + '.values', 'exactly one in-place change `%s[%s] = <proposed centre>` of the candidate centre list (found %d)' % (NM, R.cid, len(muts)))
+    if P is None and NM is None:
+        P = P_inplace
     R.PI, R.P, R.NM, R.NA = PI, P, NM, NA
+    _candidate_centres(ck, R)
+
+
+def _candidate_centres(ck, R):
+    """The candidate distances / labels whose cost decides the acceptance must be
+    those of the CANDIDATE configuration (the current centres with the proposed
+    coordinate at the position of the centre being updated).  Whatever call
+    feeds the candidate arrays and takes a list of centres - the re-assignment
+    of the frames that lose their centre - must therefore receive a list that
+    holds the proposed coordinate at that position when the call executes: a
+    store `<list>[<centre id>] = <proposed coordinate>` dominates the call and
+    the list is not rebound in between.  Handing over the CURRENT centre list
+    (a state variable no store of this trip has touched) evaluates the
+    candidate as if the replaced centre were still available: its cost is
+    min(old, new) per frame, a lower bound that passes the accept test for
+    proposals that raise the true cost."""
+    rule = 'C09.D2.atomic.candidate-centres'
+    mod, fn, fi, loop = R.mod, R.fn, R.fi, R.loop
+    NM, NA, P = R.NM, R.NA, R.P
+    arrays = [x for x in (R.cand_dist, NA) if x]
+    if not arrays:
+        ck.missing(rule, 'candidate distances / labels not located (see C09.D1.accept, C09.D2.atomic.values)')
+        return
+    # --- calls whose result is stored into a candidate array
+    feed = []
+
+    def add(c):
+        if isinstance(c, ast.Call) and not any(c is x for x in feed):
+            feed.append(c)
+    for arr in arrays:
+        for s, t in subscript_stores(loop, arr):
+            val = getattr(s, 'value', None)
+            if val is None:
+                continue
+            for n in walk_expr(val):
+                if isinstance(n, ast.Call):
+                    add(n)
+                elif isinstance(n, ast.Name) and isinstance(n.ctx, ast.Load):
+                    n0 = _orig_name(fi, n)
+                    if not isinstance(n0, ast.Name):
+                        continue
+                    try:
+                        ds = fi.defs_of_use(n0)
+                    except Exception:
+                        continue
+                    for d in ds:
+                        if d not in ('PARAM', 'UNBOUND') and isinstance(d, (ast.Assign, ast.AnnAssign)) and _inside(mod, d, loop):
+                            add(d.value)
+    try:
+        cu_mod = ck.repo.mod(CU)
+        atn = cu_mod.func('assign_to_nearest_center')
+    except AnalysisIncomplete:
+        cu_mod = atn = None
+    lists = {R.MC} | ({NM} if NM else set())
+    sites = []          # (call, centre-list argument)
+    for c in feed:
+        if _last(call_name(c)) == 'assign_to_nearest_center':
+            b = _bind(c, atn, cu_mod) if atn is not None else None
+            ps = params(atn) if atn is not None else []
+            if b is None or len(ps) < 2 or ps[1] not in b:
+                ck.missing(rule, 'arguments of `%s`' % u(c)[:100])
+                continue
+            sites.append((c, b[ps[1]]))
+            continue
+        for a in list(c.args) + [k.value for k in c.keywords]:
+            n0 = _orig_name(fi, a)
+            if isinstance(n0, ast.Name) and n0.id in lists:
+                sites.append((c, a))
+    if not sites:
+        ck.missing(rule, 'no call that takes a list of centres feeds the candidate arrays %s: the re-assignment of the frames '
+                   'that lose their centre was not located' % ', '.join(arrays))
+        return
+    for c, a in sites:
+        st = fi.stmt(c)
+        n0 = _orig_name(fi, a)
+        if not isinstance(n0, ast.Name):
+            ck.missing(rule, 'centre list `%s` handed to `%s` is not a named list' % (u(a)[:60], u(c)[:80]))
+            continue
+        L = n0.id
+        construct = '%s  [centres = %s]' % (u(c)[:160], L)
+        stores = [(m, t) for m, t in subscript_stores(loop, L)]
+        swaps = [(m, t) for m, t in stores if classify(fi.expand(t.slice), [R.cid], scope={R.cid})[0] == 'match']
+        before = [(m, t) for m, t in swaps if m is not st and fi.cfg.dominates(m, st) and _no_redef_between(fi, L, m, st, loop)
+                  and fi.rd.defs_at(m, L) == fi.rd.defs_at(st, L)]
+        if before:
+            m, t = before[-1]
+            pn = _orig_name(fi, m.value) if isinstance(m, ast.Assign) and len(m.targets) == 1 and t is m.targets[0] else None
+            later = [x for x, _ in stores if x is not m and fi.cfg.reachable(m, x, avoiding=[loop, st])
+                     and fi.cfg.reachable(x, st, avoiding=[loop, m])]
+            if later:
+                ck.missing(rule, 'centre list `%s`: further stores (%s) between the swap and the re-assignment' % (L, u(later[0])[:60]))
+            elif P is not None and isinstance(pn, ast.Name) and pn.id == P.id and fi.defs_of_use(pn) == fi.defs_of_use(P):
+                ck.ok(rule, mod, c, construct, 'the candidate is evaluated against the centre list that holds the proposed '
+                      'coordinate at position %s (`%s` precedes the call)' % (R.cid, u(m)[:60]))
+            elif P is None and isinstance(pn, ast.Name):
+                ck.missing(rule, 'proposed coordinate not located (see C09.D2.atomic.values): cannot tell whether `%s` stores it' % u(m)[:80])
+            else:
+                ck.missing(rule, 'value stored by `%s` is not recognised as the proposed coordinate%s' % (
+                    u(m)[:80], ' `%s`' % P.id if P is not None else ''))
+            continue
+        # no store of this trip puts a proposal into the list before the call
+        defs = fi.rd.defs_at(st, L)
+        plain_copy = bool(defs) and all(
+            d not in ('PARAM', 'UNBOUND') and isinstance(d, (ast.Assign, ast.AnnAssign)) and _inside(mod, d, loop)
+            and fi.def_value(d, L) is not None
+            and classify(fi.expand(fi.def_value(d, L), stop=(R.MC,)), _copy_forms(R.MC) + [R.MC], scope={R.MC})[0] == 'match'
+            for d in defs)
+        touched = [x for x in fi._mutated_in_place(L) if _inside(mod, x, loop) and x is not st
+                   and fi.cfg.reachable(x, st, avoiding=[loop])]
+        if L == R.MC and not touched:
+            ck.bad(rule, mod, c, PAM, construct,
+                   'the frames that lose their centre are re-assigned against `%s`, the CURRENT centre list: no store of this '
+                   'trip has put the proposed coordinate at position %s when the call executes, so the list still holds the '
+                   'centre that is being replaced. The candidate distances stored into %s are then min(old, new) per frame - '
+                   'the cost of a configuration with BOTH the old and the proposed centre - which is below the current cost '
+                   'for any proposal that improves a single frame: proposals that raise the mean squared distance are '
+                   'accepted, and the committed distances/labels refer to a frame that is no longer a centre. The call must '
+                   'receive the candidate list (a copy of `%s` with `[%s] = <proposed coordinate>` stored before the call)'
+                   % (L, R.cid, ' / '.join(arrays), R.MC, R.cid))
+        elif L != R.MC and plain_copy and not touched:
+            late = [m for m, _ in swaps if fi.cfg.reachable(st, m, avoiding=[loop])]
+            ck.bad(rule, mod, c, PAM, construct,
+                   'the frames that lose their centre are re-assigned against `%s`, which at this point is an unmodified copy of '
+                   'the current centre list `%s`%s: the candidate distances stored into %s are computed as if the centre being '
+                   'replaced were still available (min(old, new) per frame), so proposals that raise the mean squared distance '
+                   'pass the accept test' % (L, R.MC, ' (the proposal is stored into it only afterwards: `%s`)' % u(late[0])[:60]
+                                             if late else '', ' / '.join(arrays)))
+        else:
+            ck.missing(rule, 'centre list `%s` handed to `%s`: no store `%s[%s] = <proposed coordinate>` recognised before the call'
+                       % (L, u(c)[:80], L, R.cid))
 
 
 # ---------------------------------------------------------------------------
@@ -1314,9 +1476,16 @@ def _initial_coords(ck, R):
                     and u(c.func.value) == R.MC and not _inside(mod, c, loop)]
             if not apps:
                 ck.missing(rule, 'filling of the initial centre coordinates `%s`' % R.MC)
+            loops = []
             for c in apps:
                 l = _loop_of(mod, c)
-                e = c.args[0] if len(c.args) == 1 else None
+                if l is not None and not any(l is x for x in loops):
+                    loops.append(l)
+            if any(a is not b and fi.cfg.reachable(a, b) for a in loops for b in loops):
+                ck.missing(rule, 'several loops append to the initial centre coordinates `%s` on one path' % R.MC)
+            for c in apps:
+                l = _loop_of(mod, c)
+                e = c.args[0] if len(c.args) == 1 and not c.keywords else None
                 if isinstance(e, ast.Name):
                     sv = _stable_value(fi, e)
                     e = sv if sv is not None else e
@@ -1324,14 +1493,37 @@ def _initial_coords(ck, R):
                     # a small helper of this module called with a (rank, frame) display: its value for these arguments
                     sp = _specialise_call(mod, fi, e)
                     e = sp if sp is not None else e
-                if not (isinstance(l, ast.For) and isinstance(e, ast.Call) and _last(call_name(e)) == 'distribute_frame'):
-                    ck.missing(rule, 'initial MPI centre coordinates `%s`' % u(c)[:100])
+                if not isinstance(l, ast.For) or l.orelse or e is None or not (
+                        fi.stmt(c) is l.body[0] or _control_equivalent(fi, l.body[0], fi.stmt(c))):
+                    ck.missing(rule, 'initial centre coordinates `%s`' % u(c)[:100])
                     continue
-                da = _distribute_args(ck, e)
                 it, tg = l.iter, l.target
                 if isinstance(it, ast.Call) and call_name(it) == 'enumerate' and len(it.args) == 1 and isinstance(tg, ast.Tuple) and len(tg.elts) == 2:
                     it, tg = it.args[0], tg.elts[1]
-                if da is None or any(x is None for x in da) or fi.xu(it, stop=(R.MI,)) != R.MI or not (
+                itx = fi.xu(it, stop=(R.MI,))
+                if not (isinstance(e, ast.Call) and _last(call_name(e)) == 'distribute_frame'):
+                    # serial form: one frame of X per supplied index, in the order of the indices -
+                    # `for i in MI: append(X[i])` or `for k in range(len(MI)): append(X[MI[k]])`
+                    if not isinstance(tg, ast.Name):
+                        ck.missing(rule, 'initial centre coordinates `%s`' % u(l)[:100])
+                        continue
+                    k = tg.id
+                    if itx == R.MI:
+                        forms = ['%s[%s]' % (R.X, k), '%s[int(%s)]' % (R.X, k)]
+                    elif itx in (C('range(len(%s))' % R.MI), C('range(0, len(%s))' % R.MI),
+                                 C('np.arange(len(%s))' % R.MI)):
+                        forms = ['%s[%s[%s]]' % (R.X, R.MI, k), '%s[int(%s[%s])]' % (R.X, R.MI, k)]
+                    else:
+                        ck.missing(rule, 'initial centre coordinates: loop `%s` is not over the supplied indices `%s`' % (u(l)[:80], R.MI))
+                        continue
+                    n += 1
+                    v = classify(fi.expand(e, stop=(R.X, R.MI, k)), forms, scope={R.X, R.MI, k})
+                    ck.decide(v, rule, mod, c, PAM, '%s  [for %s in %s]' % (u(c)[:120], k, itx),
+                              'initial coordinates = the frames of X at the supplied centre indices (append loop)',
+                              'the centre coordinates must start as [%s[i] for i in %s]' % (R.X, R.MI))
+                    continue
+                da = _distribute_args(ck, e)
+                if da is None or any(x is None for x in da) or itx != R.MI or not (
                         isinstance(tg, ast.Tuple) and len(tg.elts) == 2 and all(isinstance(x, ast.Name) for x in tg.elts)):
                     ck.missing(rule, 'initial MPI centre coordinates `%s`' % u(l)[:100])
                     continue
